@@ -7,10 +7,10 @@ import z3
 from .engine import (Engine, State, Frame, Signal, And, Or, Not, Implies, Ite, to_opt, EXC_PARENTS,
                      ACTION_KINDS)
 from .values import (Unsupported, EngineError, is_z3, is_boolish, is_intish, simp, Z, ZB, EnumV, Opt,
-                     SymList, EmptyList, SymSet, Obj, ActionV, ClassRef, FuncV, RangeV, ListLit, SymMap2, NdArray3)
+                     SymList, EmptyList, SymSet, Obj, ActionV, ClassRef, FuncV, RangeV, ListLit, SymMap2, NdArray3, IndexV)
 from .source import AnchorError, FuncInfo
 
-MUTATORS = {"append", "pop", "add", "remove"}
+MUTATORS = {"append", "pop", "add", "remove", "discard"}
 
 
 class ConcreteRaise(Exception):
@@ -260,6 +260,10 @@ class Verifier(Engine):
         except ConcreteRaise as exc:
             st.pending_raises = None
             return [(st, (Signal.RAISE, str(exc), s))]
+        except Unsupported:
+            if self.concrete or not self.strongly_infeasible(st):
+                raise
+            return []       # the path that reaches the unsupported construct does not exist
         final = []
         for (y, sig) in out:
             if y.pending_raises:
@@ -498,6 +502,10 @@ class Verifier(Engine):
                 gt = (self.contract.hooks or {}).get("ghost_types", {})
                 if t.attr in gt:
                     val = self.typed_empty(gt[t.attr])
+        if isinstance(val, IndexV) and isinstance(t, ast.Name):
+            # a single step: binding the name to a list instead would be a type confusion
+            self.oblige(st, Not(val.ip), "index_is_a_single_step", node)
+            val = val.i0
         if isinstance(t, ast.Name):
             declared_nonlocal = self.is_nonlocal(t.id, st)
             st.assign(t.id, val, nonlocal_ok=declared_nonlocal)
@@ -509,6 +517,11 @@ class Verifier(Engine):
                     return
                 for e, v in zip(t.elts, val):
                     self.assign_target(e, v, st, node)
+                return
+            if isinstance(val, IndexV) and len(t.elts) == 2:
+                self.oblige(st, val.ip, "index_is_a_pair", node)
+                self.assign_target(t.elts[0], val.i0, st, node)
+                self.assign_target(t.elts[1], val.i1, st, node)
                 return
             raise Unsupported("unpacking of %s" % type(val).__name__)
         if isinstance(t, ast.Attribute):
@@ -654,6 +667,13 @@ class Verifier(Engine):
         for nm in sorted(names | set(spec.extra_modifies)):
             v, i = st.lookup(nm)
             if i is None:
+                if nm in self.contract.locals and not nm.startswith("it_"):
+                    # first bound inside the loop: at the head it holds a value of an earlier
+                    # iteration (or is unbound - reading it then raises, a path we over-approximate)
+                    nv, cs = self.fresh(self.contract.locals[nm], nm)
+                    st.frames[-1].vars[nm] = nv
+                    for x in cs:
+                        st.assume(x)
                 continue
             if isinstance(v, EmptyList) and nm in self.contract.locals:
                 nv, cs = self.fresh(self.contract.locals[nm], nm)
